@@ -103,9 +103,22 @@ class Gen:
             rows.append(cells)
         return ("table", rows)
 
+    def styled_run(self):
+        """one style span holding k spans of the other style, all with quotes, on one line (k up to 24)"""
+        rng = self.rng
+        k = rng.choice([2, 5, 9, 13, 16, 17, 18, 20, 24])
+        outer, inner = rng.choice([("i", "b"), ("b", "i")])
+        body = self.words(1)
+        for _ in range(k):
+            body.append((inner, "q", self.words(1)))
+            body.extend(self.words(1))
+        return ("p", [[(outer, "q", body)] + self.words(1)])
+
     def block(self, depth=0, in_cell=False):
         rng = self.rng
         r = rng.random()
+        if r < 0.03 and depth == 0:
+            return self.styled_run()
         if r < 0.35:
             return ("p", [self.inline() for _ in range(rng.randint(1, 2))])
         if r < 0.6:
